@@ -112,6 +112,116 @@ class AstDB:
             for _ in range(2):                 # helpers calling helpers: two rounds
                 self._inline_new_helpers()
 
+        self.split_locals = []
+        if not os.environ.get("VERIF_NO_SPLIT"):
+            self._split_const_bool_locals()
+
+    # -- case split on const bool locals ---------------------------------------
+    def _split_const_bool_locals(self):
+        """`const bool v = E; REST` with a side-effect-free E, where v is handed to a call as an argument, is rewritten into
+        `if (E) REST[v := true] else REST[v := false]` (conditions on the literal folded away).  The two programs are equivalent -
+        E is evaluated once, at the same point - and the second is the shape the rules were written for: a call whose flag
+        argument is a literal in each branch.  (Merging two branches that differ in one flag into a single call with a computed
+        flag is a common tidy-up.)"""
+        import copy
+
+        def lit(v, like):
+            return {"kind": "CXXBoolLiteralExpr", "type": {"qualType": "bool"}, "valueCategory": "prvalue", "value": v,
+                    "file": like.get("file"), "line": like.get("line"), "l0": like.get("l0"), "l1": like.get("l1")}
+
+        def subst(node, vid, v):
+            if isinstance(node, list):
+                return [subst(x, vid, v) for x in node]
+            if not isinstance(node, dict):
+                return node
+            if node.get("kind") == "DeclRefExpr" and node.get("referencedDecl", {}).get("id") == vid:
+                return lit(v, node)
+            if node.get("kind") == "ImplicitCastExpr" and node.get("castKind") == "LValueToRValue" and kids(node) and \
+                    kids(node)[0].get("kind") == "DeclRefExpr" and kids(node)[0].get("referencedDecl", {}).get("id") == vid:
+                return lit(v, node)
+            out = {}
+            for k, x in node.items():
+                out[k] = subst(x, vid, v) if k == "inner" else x
+            return out
+
+        def litval(e):
+            e = strip(e)
+            if e.get("kind") == "CXXBoolLiteralExpr":
+                return bool(e.get("value"))
+            return None
+
+        def fold(node):
+            if isinstance(node, list):
+                return [fold(x) for x in node]
+            if not isinstance(node, dict) or "inner" not in node:
+                return node
+            node = dict(node)
+            node["inner"] = [fold(x) for x in node["inner"]]
+            k = node.get("kind")
+            if k == "UnaryOperator" and node.get("opcode") == "!":
+                v = litval(node["inner"][0])
+                if v is not None:
+                    return lit(not v, node)
+            if k == "BinaryOperator" and node.get("opcode") in ("&&", "||"):
+                l, r = node["inner"]
+                lv = litval(l)
+                if lv is not None:
+                    if node["opcode"] == "&&":
+                        return r if lv else lit(False, node)
+                    return lit(True, node) if lv else r
+                rv = litval(r)
+                if rv is not None and ((node["opcode"] == "&&" and rv) or (node["opcode"] == "||" and not rv)):
+                    return l
+            if k == "ConditionalOperator":
+                v = litval(node["inner"][0])
+                if v is not None:
+                    return node["inner"][1] if v else node["inner"][2]
+            if k == "IfStmt" and not node.get("hasInit") and not node.get("hasVar") and not node.get("isConstexpr"):
+                cond, then, els = _if_parts(node)
+                v = litval(cond)
+                if v is not None:
+                    if v:
+                        return then
+                    return els if els is not None else {"kind": "NullStmt", "file": node.get("file"), "line": node.get("line")}
+            return node
+
+        def split_block(block, fq):
+            if not isinstance(block, dict):
+                return
+            if block.get("kind") == "CompoundStmt":
+                st = block.get("inner", [])
+                for i, s0 in enumerate(st):
+                    if not (isinstance(s0, dict) and s0.get("kind") == "DeclStmt" and len(kids(s0)) == 1):
+                        continue
+                    d = kids(s0)[0]
+                    if d.get("kind") != "VarDecl" or (qt(d) or "").strip() != "const bool":
+                        continue
+                    init = [c for c in kids(d) if isinstance(c, dict) and c.get("kind")]
+                    if not init or not self._pure(init[-1]):
+                        continue
+                    vid = d.get("id")
+                    rest = st[i + 1:]
+                    as_arg = any(y.get("kind") in ("CallExpr", "CXXMemberCallExpr") and
+                                 any(strip(a).get("kind") == "DeclRefExpr" and strip(a).get("referencedDecl", {}).get("id") == vid for a in self.call_args(y))
+                                 for r in rest for y in walk(r))
+                    if not as_arg:
+                        continue
+                    mk = lambda v: {"kind": "CompoundStmt", "file": s0.get("file"), "line": s0.get("line"), "l0": s0.get("l0"), "l1": block.get("l1"),
+                                    "inner": [x for x in (fold(subst(copy.deepcopy(r), vid, v)) for r in rest) if not (isinstance(x, dict) and x.get("kind") == "NullStmt")]}
+                    ifs = {"kind": "IfStmt", "hasElse": True, "file": s0.get("file"), "line": s0.get("line"), "l0": s0.get("l0"), "l1": block.get("l1"),
+                           "inner": [copy.deepcopy(init[-1]), mk(True), mk(False)]}
+                    block["inner"] = st[:i] + [ifs]
+                    self.split_locals.append("%s: %s" % (fq, d.get("name")))
+                    break
+            for c in kids(block):
+                split_block(c, fq)
+
+        for f in self.funcs:
+            fl = f.file or ""
+            if f.body is None or not ("Clipper2Lib" in fl or "clipper2" in fl):
+                continue
+            split_block(f.body, f.qual)
+
     # -- indexing ---------------------------------------------------------
     def _index(self, n, ctx, cls, in_tmpl):
         k = n.get("kind", "")
